@@ -185,6 +185,10 @@ void t4_abbrevfind(void) {
  * Build configuration "d" (no -DNDEBUG).  NFKD is a stub with the two Unicode facts
  * that are validated separately with unicodedata: words are NFKD-stable (identity)
  * and U+3000 decomposes to an ASCII space.                                        */
+/* (not registered: the concrete run of polyseed_lang_check does not finish within 25 min under CBMC --
+ * every iteration goes through a 544-byte normalisation buffer; its three facts are decided elsewhere:
+ * sortedness under the real comparator = t4_table adjacency + t3_lemma with key = the word itself,
+ * NFKD stability and the separator = unicodedata validation, flags = t4_meta) */
 #ifdef SELFCHECK
 #include "dependency.h"
 static size_t sc_nfkd(const char* str, polyseed_str norm) {
